@@ -523,7 +523,7 @@ func (P) Generate(g *core.Gen) {
 	}
 	// 8 chain instances run concurrently: half of the groups share one header tree (same block
 	// hashes, different rules), the others are unrelated.
-	for i := 0; i < g.N(120, 4000); i++ {
+	for i := 0; i < g.N(100, 3000); i++ {
 		var subs []string
 		var first *inst
 		shared := i%2 == 0
@@ -544,6 +544,15 @@ func (P) Generate(g *core.Gen) {
 			class = "par-same-tree"
 		}
 		g.Case(class, true, "C14 par "+strings.Join(subs, "|"))
+	}
+	// successive lives over the same blocks with different window / threshold / deployments
+	for i := 0; i < g.N(60, 2000); i++ {
+		first := genInstance(r, nil, false)
+		subs := []string{strings.Join(first.fields(), "/")}
+		for k := 0; k < 3; k++ {
+			subs = append(subs, strings.Join(genInstance(r, first, false).fields(), "/"))
+		}
+		g.Case("seq-same-tree", true, "C14 seq "+strings.Join(subs, "|"))
 	}
 	// small exported helpers
 	for n := 0; n < 8; n++ {
